@@ -247,7 +247,13 @@ def run(ctx):
     if len(hw) != len(res):
         raise vlib.Broken("%d recorded schedules for %d results" % (len(hw), len(res)))
     rejected = [k for k, (a, b) in enumerate(hw) if a != b]
-    _selftest(ctx, [r for k, r in enumerate(recs) if hw[k][0] == hw[k][1] and res[k]["ok"]])
+    clean_run = not rejected and all(r["ok"] for r in res)
+    if clean_run:
+        # the binding self-test needs accepted executions of a library that keeps the property; on a run with
+        # failures the verdict comes from those, and a missing sample execution must not mask them as "broken"
+        _selftest(ctx, [r for k, r in enumerate(recs) if hw[k][0] == hw[k][1] and res[k]["ok"]])
+    else:
+        ctx.notes["binding_selftest"] = "skipped: the run has failing or rejected schedules"
 
     # ---- failures: seen by the replayer itself, by the specification, or both
     tlc_only = 0
